@@ -129,3 +129,423 @@ pub proof fn lemma_mm_len(f: Seq<GTree>)
         if f.last().range.1 is Some { lemma_mcm_bounds(marker_ranges(cm).reverse(), f.last().range.1->0); }
     }
 }
+
+// ---- lemmas: mm_spec has the promised properties (sortedness, extent, coverage) ----
+pub open spec fn svalid(s: Seq<Range<usize>>) -> bool { forall|i: int| 0 <= i < s.len() ==> (#[trigger] s[i]).start <= s[i].end }
+pub open spec fn cov_prefix(s: Seq<Range<usize>>, c: int, p: int) -> bool { exists|i: int| 0 <= i < c && i < s.len() && rcontains_i(#[trigger] s[i], p) }
+pub proof fn lemma_mcm(s: Seq<Range<usize>>, m: Range<usize>)
+    requires m.start <= m.end, svalid(s),
+    ensures ({
+        let r = mcm(s, m);
+        &&& 0 <= r.0 <= s.len()
+        &&& r.1.start <= m.start && m.end <= r.1.end
+        &&& forall|p: int| rcontains_i(r.1, p) <==> (rcontains_i(m, p) || cov_prefix(s, r.0, p))
+        &&& r.0 < s.len() ==> !touches(r.1, s[r.0])
+        &&& (r.1.start == m.start || exists|i: int| 0 <= i < r.0 && (#[trigger] s[i]).start == r.1.start)
+        &&& (r.1.end == m.end || exists|i: int| 0 <= i < r.0 && (#[trigger] s[i]).end == r.1.end)
+        &&& forall|i: int| 0 <= i < r.0 ==> r.1.start <= (#[trigger] s[i]).start && s[i].end <= r.1.end
+    }),
+    decreases s.len(),
+{
+    if s.len() > 0 && touches(m, s[0]) {
+        let t = s.drop_first();
+        let h = hull(m, s[0]);
+        assert(s[0].start <= s[0].end);
+        assert(svalid(t)) by { assert forall|i: int| 0 <= i < t.len() implies (#[trigger] t[i]).start <= t[i].end by { assert(t[i] == s[i + 1]); } }
+        lemma_mcm(t, h);
+        let r = mcm(t, h);
+        let c = r.0 + 1;
+        assert forall|p: int| rcontains_i(r.1, p) <==> (rcontains_i(m, p) || cov_prefix(s, c, p)) by {
+            if rcontains_i(r.1, p) {
+                if rcontains_i(h, p) {
+                    if !rcontains_i(m, p) { assert(rcontains_i(s[0], p)); }
+                } else {
+                    let i = choose|i: int| 0 <= i < r.0 && i < t.len() && rcontains_i(#[trigger] t[i], p);
+                    assert(rcontains_i(s[i + 1], p));
+                }
+            }
+            if rcontains_i(m, p) { assert(rcontains_i(h, p)); }
+            if cov_prefix(s, c, p) {
+                let i = choose|i: int| 0 <= i < c && i < s.len() && rcontains_i(#[trigger] s[i], p);
+                if i == 0 { assert(rcontains_i(h, p)); } else { assert(rcontains_i(t[i - 1], p)); assert(cov_prefix(t, r.0, p)); }
+            }
+        }
+        if r.0 < t.len() { assert(t[r.0] == s[c]); }
+        if r.1.start != m.start {
+            if r.1.start == h.start { assert(s[0].start == r.1.start); }
+            else { let i = choose|i: int| 0 <= i < r.0 && (#[trigger] t[i]).start == r.1.start; assert(s[i + 1].start == r.1.start); }
+        }
+        assert forall|i: int| 0 <= i < c implies r.1.start <= (#[trigger] s[i]).start && s[i].end <= r.1.end by {
+            if i > 0 { assert(t[i - 1] == s[i]); }
+        }
+        if r.1.end != m.end {
+            if r.1.end == h.end { assert(s[0].end == r.1.end); }
+            else { let i = choose|i: int| 0 <= i < r.0 && (#[trigger] t[i]).end == r.1.end; assert(s[i + 1].end == r.1.end); }
+        }
+    } else {
+        assert forall|p: int| rcontains_i(m, p) <==> (rcontains_i(m, p) || cov_prefix(s, 0, p)) by {}
+    }
+}
+pub open spec fn markers_inside(m: Seq<RemoveMarker>, lo: int, hi: int) -> bool {
+    forall|i: int| 0 <= i < m.len() ==> lo < (#[trigger] m[i]).0.start && m[i].0.end < hi
+}
+pub proof fn lemma_mcm_all(s: Seq<Range<usize>>, m: Range<usize>)
+    requires svalid(s), forall|i: int| 0 <= i < s.len() ==> m.start <= (#[trigger] s[i]).start < m.end && s[i].end <= m.end,
+    ensures mcm(s, m) == (s.len() as int, m),
+    decreases s.len(),
+{
+    if s.len() > 0 {
+        assert(m.start <= s[0].start < m.end);
+        assert(hull(m, s[0]) == m);
+        let t = s.drop_first();
+        assert forall|i: int| 0 <= i < t.len() implies m.start <= (#[trigger] t[i]).start < m.end && t[i].end <= m.end by { assert(t[i] == s[i + 1]); }
+        assert(svalid(t)) by { assert forall|i: int| 0 <= i < t.len() implies (#[trigger] t[i]).start <= t[i].end by { assert(t[i] == s[i + 1]); } }
+        lemma_mcm_all(t, m);
+    }
+}
+pub proof fn lemma_tree_nopair(h: Range<usize>, cm: Seq<RemoveMarker>)
+    requires h.start < h.end, markers_sorted(cm), markers_inside(cm, h.start as int, h.end as int),
+    ensures ({
+        let a = mcm(marker_ranges(cm), h);
+        &&& a.1 == h
+        &&& forall|p: int| rcontains_i(h, p) <==> (rcontains_i(h, p) || markers_covered(cm, p))
+    }),
+{
+    let cr = marker_ranges(cm);
+    assert(svalid(cr)) by { assert forall|i: int| 0 <= i < cr.len() implies (#[trigger] cr[i]).start <= cr[i].end by { assert(cr[i] == cm[i].0); } }
+    assert forall|i: int| 0 <= i < cr.len() implies h.start <= (#[trigger] cr[i]).start < h.end && cr[i].end <= h.end by { assert(cr[i] == cm[i].0); }
+    lemma_mcm_all(cr, h);
+    assert forall|p: int| markers_covered(cm, p) implies rcontains_i(h, p) by {
+        let i = choose|i: int| 0 <= i < cm.len() && (#[trigger] cm[i]).0.start <= p < cm[i].0.end;
+    }
+}
+pub open spec fn pair_out(h: Range<usize>, t: Range<usize>, cm: Seq<RemoveMarker>, cur: int) -> Seq<RemoveMarker> {
+    let cr = marker_ranges(cm);
+    let a = mcm(cr, h);
+    let b = mcm(cr.reverse(), t);
+    let ec = cm.len() - b.0;
+    if a.0 > ec {
+        seq![(Range { start: a.1.start, end: b.1.end }, None::<usize>)]
+    } else {
+        seq![(a.1, Some((cur + (ec - a.0) + 1) as usize))] + rebased(cm, a.0, ec, cur) + seq![(b.1, Some(cur as usize))]
+    }
+}
+pub open spec fn pair_facts(h: Range<usize>, t: Range<usize>, cr: Seq<Range<usize>>, sc: int, hp: Range<usize>, bc: int, tp: Range<usize>) -> bool {
+    let n = cr.len() as int;
+    let ec = n - bc;
+    &&& 0 <= sc <= n && 0 <= bc <= n
+    &&& hp.start == h.start && h.end <= hp.end && tp.end == t.end && tp.start <= t.start
+    &&& forall|p: int| #[trigger] rcontains_i(hp, p) <==> (rcontains_i(h, p) || exists|q: int| 0 <= q < sc && rcontains_i(#[trigger] cr[q], p))
+    &&& forall|p: int| #[trigger] rcontains_i(tp, p) <==> (rcontains_i(t, p) || exists|j: int| ec <= j < n && rcontains_i(#[trigger] cr[j], p))
+    &&& forall|i: int| 0 <= i < sc ==> (#[trigger] cr[i]).end <= hp.end
+    &&& forall|j: int| ec <= j < n ==> tp.start <= (#[trigger] cr[j]).start
+    &&& (sc <= ec ==> hp.end <= tp.start)
+    &&& (sc <= ec && sc < n ==> hp.end <= cr[sc].start)
+    &&& (sc <= ec && ec > 0 ==> cr[ec - 1].end <= tp.start)
+    &&& (sc > ec ==> tp.start <= hp.end)
+}
+pub open spec fn children_ok(h: Range<usize>, t: Range<usize>, cr: Seq<Range<usize>>) -> bool {
+    &&& forall|i: int| 0 <= i < cr.len() ==> h.start < (#[trigger] cr[i]).start && cr[i].start <= cr[i].end && cr[i].end < t.end
+    &&& forall|i: int, j: int| 0 <= i < j < cr.len() ==> (#[trigger] cr[i]).end <= (#[trigger] cr[j]).start
+}
+pub proof fn lemma_pair_facts(h: Range<usize>, t: Range<usize>, cr: Seq<Range<usize>>)
+    requires h.start < h.end <= t.start <= t.end, children_ok(h, t, cr),
+    ensures pair_facts(h, t, cr, mcm(cr, h).0, mcm(cr, h).1, mcm(cr.reverse(), t).0, mcm(cr.reverse(), t).1),
+{
+    let rv = cr.reverse();
+    let n = cr.len() as int;
+    assert(svalid(cr));
+    assert(svalid(rv)) by { assert forall|i: int| 0 <= i < rv.len() implies (#[trigger] rv[i]).start <= rv[i].end by { assert(rv[i] == cr[n - 1 - i]); } }
+    lemma_mcm(cr, h);
+    lemma_mcm(rv, t);
+    let a = mcm(cr, h);
+    let b = mcm(rv, t);
+    let sc = a.0; let hp = a.1; let bc = b.0; let tp = b.1; let ec = n - bc;
+    assert(hp.start == h.start) by {
+        if hp.start != h.start { let i = choose|i: int| 0 <= i < sc && (#[trigger] cr[i]).start == hp.start; assert(h.start < cr[i].start); }
+    }
+    assert(tp.end == t.end) by {
+        if tp.end != t.end { let i = choose|i: int| 0 <= i < bc && (#[trigger] rv[i]).end == tp.end; assert(rv[i] == cr[n - 1 - i]); assert(cr[n - 1 - i].end < t.end); }
+    }
+    assert forall|p: int| #[trigger] rcontains_i(hp, p) <==> (rcontains_i(h, p) || exists|q: int| 0 <= q < sc && rcontains_i(#[trigger] cr[q], p)) by {
+        if cov_prefix(cr, sc, p) { let q = choose|q: int| 0 <= q < sc && q < cr.len() && rcontains_i(#[trigger] cr[q], p); assert(0 <= q < sc && rcontains_i(cr[q], p)); }
+        if exists|q: int| 0 <= q < sc && rcontains_i(#[trigger] cr[q], p) { let q = choose|q: int| 0 <= q < sc && rcontains_i(#[trigger] cr[q], p); assert(cov_prefix(cr, sc, p)); }
+    }
+    assert forall|p: int| #[trigger] rcontains_i(tp, p) <==> (rcontains_i(t, p) || exists|j: int| ec <= j < n && rcontains_i(#[trigger] cr[j], p)) by {
+        if cov_prefix(rv, bc, p) {
+            let i = choose|i: int| 0 <= i < bc && i < rv.len() && rcontains_i(#[trigger] rv[i], p);
+            assert(rv[i] == cr[n - 1 - i]);
+            assert(ec <= n - 1 - i < n && rcontains_i(cr[n - 1 - i], p));
+        }
+        if exists|j: int| ec <= j < n && rcontains_i(#[trigger] cr[j], p) {
+            let j = choose|j: int| ec <= j < n && rcontains_i(#[trigger] cr[j], p);
+            assert(rv[n - 1 - j] == cr[j]);
+            assert(0 <= n - 1 - j < bc && n - 1 - j < rv.len() && rcontains_i(rv[n - 1 - j], p));
+            assert(cov_prefix(rv, bc, p));
+        }
+    }
+    assert forall|j: int| ec <= j < n implies tp.start <= (#[trigger] cr[j]).start by {
+        assert(rv[n - 1 - j] == cr[j]);
+        assert(tp.start <= rv[n - 1 - j].start);
+    }
+    if sc < n { assert(!touches(hp, cr[sc])); }
+    if bc < n { assert(rv[bc] == cr[ec - 1]); assert(!touches(tp, cr[ec - 1])); }
+    if sc <= ec {
+        if sc < n { assert(cr[sc].start >= hp.end); }
+        if ec > 0 { assert(cr[ec - 1].end <= tp.start); }
+        assert(hp.end <= tp.start) by {
+            if hp.end != h.end {
+                let i = choose|i: int| 0 <= i < sc && (#[trigger] cr[i]).end == hp.end;
+                assert(cr[i].end <= cr[ec - 1].end) by { if i < ec - 1 { assert(cr[i].end <= cr[ec - 1].start); } }
+            } else if tp.start != t.start {
+                let q = choose|q: int| 0 <= q < bc && (#[trigger] rv[q]).start == tp.start;
+                assert(rv[q] == cr[n - 1 - q]);
+                let j = n - 1 - q;
+                assert(cr[sc].start <= cr[j].start) by { if sc < j { assert(cr[sc].end <= cr[j].start); } }
+            }
+        }
+    } else {
+        let k = ec;
+        assert(rv[n - 1 - k] == cr[k]);
+        assert(tp.start <= rv[n - 1 - k].start && cr[k].end <= hp.end);
+    }
+}
+pub proof fn lemma_pair_merged(h: Range<usize>, t: Range<usize>, cm: Seq<RemoveMarker>, sc: int, hp: Range<usize>, bc: int, tp: Range<usize>)
+    requires
+        h.start < h.end <= t.start <= t.end, children_ok(h, t, marker_ranges(cm)),
+        pair_facts(h, t, marker_ranges(cm), sc, hp, bc, tp), sc > cm.len() - bc,
+    ensures ({
+        let out = seq![(Range { start: hp.start, end: tp.end }, None::<usize>)];
+        &&& markers_sorted(out)
+        &&& forall|i: int| 0 <= i < out.len() ==> h.start <= (#[trigger] out[i]).0.start && out[i].0.end <= t.end
+        &&& forall|p: int| #[trigger] markers_covered(out, p) <==> (rcontains_i(h, p) || rcontains_i(t, p) || markers_covered(cm, p))
+    }),
+{
+    let cr = marker_ranges(cm);
+    let n = cm.len() as int;
+    let ec = n - bc;
+    let out = seq![(Range { start: hp.start, end: tp.end }, None::<usize>)];
+    assert forall|p: int| #[trigger] markers_covered(out, p) <==> (rcontains_i(h, p) || rcontains_i(t, p) || markers_covered(cm, p)) by {
+        if markers_covered(out, p) {
+            let i = choose|i: int| 0 <= i < out.len() && (#[trigger] out[i]).0.start <= p < out[i].0.end;
+            assert(rcontains_i(hp, p) || rcontains_i(tp, p));
+            if rcontains_i(hp, p) && !rcontains_i(h, p) {
+                let q = choose|q: int| 0 <= q < sc && rcontains_i(#[trigger] cr[q], p);
+                assert(cr[q] == cm[q].0);
+                assert(cm[q].0.start <= p < cm[q].0.end);
+            } else if rcontains_i(tp, p) && !rcontains_i(t, p) && !rcontains_i(h, p) {
+                let j = choose|j: int| ec <= j < n && rcontains_i(#[trigger] cr[j], p);
+                assert(cr[j] == cm[j].0);
+                assert(cm[j].0.start <= p < cm[j].0.end);
+            }
+        }
+        if rcontains_i(h, p) { assert(rcontains_i(hp, p)); assert(out[0].0.start <= p < out[0].0.end); }
+        if rcontains_i(t, p) { assert(rcontains_i(tp, p)); assert(out[0].0.start <= p < out[0].0.end); }
+        if markers_covered(cm, p) {
+            let q = choose|q: int| 0 <= q < cm.len() && (#[trigger] cm[q]).0.start <= p < cm[q].0.end;
+            assert(cr[q] == cm[q].0);
+            assert(out[0].0.start <= p < out[0].0.end);
+        }
+    }
+}
+pub proof fn lemma_pair_normal(h: Range<usize>, t: Range<usize>, cm: Seq<RemoveMarker>, cur: int, sc: int, hp: Range<usize>, bc: int, tp: Range<usize>)
+    requires
+        h.start < h.end <= t.start <= t.end, children_ok(h, t, marker_ranges(cm)),
+        pair_facts(h, t, marker_ranges(cm), sc, hp, bc, tp), sc <= cm.len() - bc,
+    ensures ({
+        let ec = cm.len() - bc;
+        let out = seq![(hp, Some((cur + (ec - sc) + 1) as usize))] + rebased(cm, sc, ec, cur) + seq![(tp, Some(cur as usize))];
+        &&& markers_sorted(out)
+        &&& forall|i: int| 0 <= i < out.len() ==> h.start <= (#[trigger] out[i]).0.start && out[i].0.end <= t.end
+        &&& forall|p: int| #[trigger] markers_covered(out, p) <==> (rcontains_i(h, p) || rcontains_i(t, p) || markers_covered(cm, p))
+    }),
+{
+    let cr = marker_ranges(cm);
+    let n = cm.len() as int;
+    let ec = n - bc;
+    let mid = rebased(cm, sc, ec, cur);
+    let first = (hp, Some((cur + (ec - sc) + 1) as usize));
+    let last = (tp, Some(cur as usize));
+    let out = seq![first] + mid + seq![last];
+    let m = out.len() as int;
+    assert(m == ec - sc + 2);
+    assert(out[0] == first);
+    assert(out[m - 1] == last);
+    assert forall|k: int| 0 <= k < ec - sc implies (#[trigger] out[k + 1]).0 == cr[sc + k] by { assert(out[k + 1] == mid[k]); assert(cr[sc + k] == cm[sc + k].0); }
+    assert forall|i: int| 0 <= i < m implies (#[trigger] out[i]).0.start <= out[i].0.end && h.start <= out[i].0.start && out[i].0.end <= t.end by {
+        if 0 < i < m - 1 { assert(out[(i - 1) + 1].0 == cr[sc + (i - 1)]); }
+    }
+    assert forall|i: int, j: int| 0 <= i < j < m implies (#[trigger] out[i]).0.end <= (#[trigger] out[j]).0.start by {
+        if 0 < i { assert(out[(i - 1) + 1].0 == cr[sc + (i - 1)]); }
+        if j < m - 1 { assert(out[(j - 1) + 1].0 == cr[sc + (j - 1)]); }
+        if i == 0 && j < m - 1 {
+            assert(cr[sc].start <= cr[sc + (j - 1)].start) by { if j - 1 > 0 { assert(cr[sc].end <= cr[sc + (j - 1)].start); } }
+        } else if i > 0 && j == m - 1 {
+            assert(cr[sc + (i - 1)].end <= cr[ec - 1].end) by { if sc + (i - 1) < ec - 1 { assert(cr[sc + (i - 1)].end <= cr[ec - 1].start); } }
+        } else if i > 0 {
+            assert(cr[sc + (i - 1)].end <= cr[sc + (j - 1)].start);
+        }
+    }
+    assert forall|p: int| #[trigger] markers_covered(out, p) <==> (rcontains_i(h, p) || rcontains_i(t, p) || markers_covered(cm, p)) by {
+        if markers_covered(out, p) {
+            let i = choose|i: int| 0 <= i < out.len() && (#[trigger] out[i]).0.start <= p < out[i].0.end;
+            if i == 0 {
+                assert(rcontains_i(hp, p));
+                if !rcontains_i(h, p) { let q = choose|q: int| 0 <= q < sc && rcontains_i(#[trigger] cr[q], p); assert(cr[q] == cm[q].0); assert(cm[q].0.start <= p < cm[q].0.end); }
+            } else if i == m - 1 {
+                assert(rcontains_i(tp, p));
+                if !rcontains_i(t, p) { let j = choose|j: int| ec <= j < n && rcontains_i(#[trigger] cr[j], p); assert(cr[j] == cm[j].0); assert(cm[j].0.start <= p < cm[j].0.end); }
+            } else {
+                assert(out[(i - 1) + 1].0 == cr[sc + (i - 1)]);
+                assert(cr[sc + (i - 1)] == cm[sc + (i - 1)].0);
+                assert(cm[sc + (i - 1)].0.start <= p < cm[sc + (i - 1)].0.end);
+            }
+        }
+        if rcontains_i(h, p) { assert(rcontains_i(hp, p)); assert(out[0].0.start <= p < out[0].0.end); }
+        if rcontains_i(t, p) { assert(rcontains_i(tp, p)); assert(out[m - 1].0.start <= p < out[m - 1].0.end); }
+        if markers_covered(cm, p) {
+            let q = choose|q: int| 0 <= q < cm.len() && (#[trigger] cm[q]).0.start <= p < cm[q].0.end;
+            assert(cr[q] == cm[q].0);
+            assert(rcontains_i(cr[q], p));
+            if q < sc { assert(rcontains_i(hp, p)); assert(out[0].0.start <= p < out[0].0.end); }
+            else if q >= ec { assert(rcontains_i(tp, p)); assert(out[m - 1].0.start <= p < out[m - 1].0.end); }
+            else { assert(out[(q - sc) + 1].0 == cr[sc + (q - sc)]); assert(out[q - sc + 1].0.start <= p < out[q - sc + 1].0.end); }
+        }
+    }
+}
+
+pub proof fn lemma_forest_covered_split(f: Seq<GTree>, p: int)
+    requires f.len() > 0,
+    ensures forest_covered(f, p) <==> (forest_covered(f.drop_last(), p) || node_self_covered(f.last(), p) || forest_covered(f.last().children, p)),
+{
+    let g = f.drop_last();
+    if forest_covered(f, p) {
+        let i = choose|i: int| 0 <= i < f.len() && (node_self_covered(#[trigger] f[i], p) || forest_covered(f[i].children, p));
+        if i < g.len() { assert(g[i] == f[i]); }
+    }
+    if forest_covered(g, p) {
+        let i = choose|i: int| 0 <= i < g.len() && (node_self_covered(#[trigger] g[i], p) || forest_covered(g[i].children, p));
+        assert(f[i] == g[i]);
+    }
+    if node_self_covered(f.last(), p) || forest_covered(f.last().children, p) { assert(f[f.len() - 1] == f.last()); }
+}
+
+/// properties of the markers produced for one tree t (segment `tm`), given its children's merged markers cm
+pub open spec fn tree_seg_ok(t: GTree, cm: Seq<RemoveMarker>, tm: Seq<RemoveMarker>) -> bool {
+    &&& markers_sorted(tm) && tm.len() > 0
+    &&& forall|i: int| 0 <= i < tm.len() ==> node_lo(t) <= (#[trigger] tm[i]).0.start && tm[i].0.end <= node_hi(t)
+    &&& forall|p: int| #[trigger] markers_covered(tm, p) <==> (node_self_covered(t, p) || markers_covered(cm, p))
+}
+pub proof fn lemma_tree_seg(t: GTree, cm: Seq<RemoveMarker>, cur: int)
+    requires node_ranges_ok(t), markers_sorted(cm), markers_inside(cm, node_lo(t), node_hi(t)),
+    ensures tree_seg_ok(t, cm, tree_markers(t, cm, cur)),
+{
+    let tm = tree_markers(t, cm, cur);
+    let h = t.range.0;
+    let cr = marker_ranges(cm);
+    assert forall|i: int| 0 <= i < cm.len() implies (#[trigger] cr[i]) == cm[i].0 by {}
+    match t.range.1 {
+        Some(tail) => {
+            assert(children_ok(h, tail, cr)) by {
+                assert forall|i: int| 0 <= i < cr.len() implies h.start < (#[trigger] cr[i]).start && cr[i].start <= cr[i].end && cr[i].end < tail.end by { assert(cr[i] == cm[i].0); }
+                assert forall|i: int, j: int| 0 <= i < j < cr.len() implies (#[trigger] cr[i]).end <= (#[trigger] cr[j]).start by { assert(cr[i] == cm[i].0 && cr[j] == cm[j].0); }
+            }
+            lemma_pair_facts(h, tail, cr);
+            let a = mcm(cr, h);
+            let b = mcm(cr.reverse(), tail);
+            if a.0 > cm.len() - b.0 { lemma_pair_merged(h, tail, cm, a.0, a.1, b.0, b.1); }
+            else { lemma_pair_normal(h, tail, cm, cur, a.0, a.1, b.0, b.1); }
+        },
+        None => {
+            lemma_tree_nopair(h, cm);
+            assert(tm =~= seq![(h, None::<usize>)]);
+            assert forall|p: int| #[trigger] markers_covered(tm, p) <==> (node_self_covered(t, p) || markers_covered(cm, p)) by {
+                if markers_covered(tm, p) { let i = choose|i: int| 0 <= i < tm.len() && (#[trigger] tm[i]).0.start <= p < tm[i].0.end; }
+                if rcontains_i(h, p) { assert(tm[0].0.start <= p < tm[0].0.end); }
+            }
+        },
+    }
+}
+
+/// what lemma_mm_core establishes (the C02/C03 part of mm_post: sortedness, extent, exact coverage)
+pub open spec fn mm_core(f: Seq<GTree>, out: Seq<RemoveMarker>, lo: int, hi: int) -> bool {
+    &&& markers_sorted(out)
+    &&& (f.len() == 0 <==> out.len() == 0)
+    &&& markers_inside(out, lo, hi)
+    &&& forall|i: int| 0 <= i < out.len() ==> f.len() > 0 && node_lo(f[0]) <= (#[trigger] out[i]).0.start && out[i].0.end <= node_hi(f[f.len() - 1])
+    &&& forall|p: int| #[trigger] markers_covered(out, p) <==> forest_covered(f, p)
+}
+pub proof fn lemma_mm_core(f: Seq<GTree>, lo: int, hi: int)
+    requires wf_forest(f, lo, hi),
+    ensures mm_core(f, mm_spec(f), lo, hi),
+    decreases f,
+{
+    if f.len() > 0 {
+        let g = f.drop_last();
+        let t = f.last();
+        assert(t == f[f.len() - 1]);
+        assert(wf_forest(g, lo, hi)) by {
+            assert forall|i: int| 0 <= i < g.len() implies lo < node_lo(#[trigger] g[i]) && node_hi(g[i]) < hi && node_ranges_ok(g[i]) by { assert(g[i] == f[i]); }
+            assert forall|i: int| 0 <= i < g.len() implies wf_forest((#[trigger] g[i]).children, node_lo(g[i]), node_hi(g[i])) by { assert(g[i] == f[i]); }
+            assert forall|i: int, j: int| 0 <= i < j < g.len() implies node_hi(#[trigger] g[i]) <= node_lo(#[trigger] g[j]) by { assert(g[i] == f[i] && g[j] == f[j]); }
+        }
+        lemma_mm_core(g, lo, hi);
+        lemma_mm_core(t.children, node_lo(t), node_hi(t));
+        let prev = mm_spec(g);
+        let cm = mm_spec(t.children);
+        let tm = tree_markers(t, cm, prev.len() as int);
+        lemma_tree_seg(t, cm, prev.len() as int);
+        lemma_mm_concat(f, prev, cm, tm, lo, hi);
+    }
+}
+pub proof fn lemma_mm_concat(f: Seq<GTree>, prev: Seq<RemoveMarker>, cm: Seq<RemoveMarker>, tm: Seq<RemoveMarker>, lo: int, hi: int)
+    requires
+        f.len() > 0, wf_forest(f, lo, hi),
+        mm_core(f.drop_last(), prev, lo, hi),
+        forall|p: int| #[trigger] markers_covered(cm, p) <==> forest_covered(f.last().children, p),
+        tree_seg_ok(f.last(), cm, tm),
+    ensures mm_core(f, prev + tm, lo, hi),
+{
+    let g = f.drop_last();
+    let t = f.last();
+    let out = prev + tm;
+    assert(t == f[f.len() - 1]);
+    assert forall|i: int| 0 <= i < out.len() implies node_lo(f[0]) <= (#[trigger] out[i]).0.start && out[i].0.end <= node_hi(f[f.len() - 1])
+        && out[i].0.start <= out[i].0.end && lo < out[i].0.start && out[i].0.end < hi by {
+        if i < prev.len() {
+            assert(out[i] == prev[i]);
+            assert(g[0] == f[0]);
+            assert(g[g.len() - 1] == f[g.len() - 1]);
+            assert(node_hi(f[g.len() - 1]) <= node_lo(f[f.len() - 1]));
+            assert(node_ranges_ok(f[f.len() - 1]));
+        } else {
+            assert(out[i] == tm[i - prev.len()]);
+            if g.len() > 0 { assert(node_hi(f[0]) <= node_lo(f[f.len() - 1])); assert(node_ranges_ok(f[0])); }
+        }
+    }
+    assert forall|i: int, j: int| 0 <= i < j < out.len() implies (#[trigger] out[i]).0.end <= (#[trigger] out[j]).0.start by {
+        if j < prev.len() { assert(out[i] == prev[i] && out[j] == prev[j]); }
+        else if i >= prev.len() { assert(out[i] == tm[i - prev.len()] && out[j] == tm[j - prev.len()]); }
+        else {
+            assert(out[i] == prev[i] && out[j] == tm[j - prev.len()]);
+            assert(g[g.len() - 1] == f[g.len() - 1]);
+            assert(node_hi(f[g.len() - 1]) <= node_lo(f[f.len() - 1]));
+        }
+    }
+    assert forall|p: int| #[trigger] markers_covered(out, p) <==> forest_covered(f, p) by {
+        lemma_forest_covered_split(f, p);
+        if markers_covered(out, p) {
+            let i = choose|i: int| 0 <= i < out.len() && (#[trigger] out[i]).0.start <= p < out[i].0.end;
+            if i < prev.len() { assert(prev[i] == out[i]); assert(markers_covered(prev, p)); }
+            else { assert(tm[i - prev.len()] == out[i]); assert(markers_covered(tm, p)); }
+        }
+        if markers_covered(prev, p) {
+            let i = choose|i: int| 0 <= i < prev.len() && (#[trigger] prev[i]).0.start <= p < prev[i].0.end;
+            assert(out[i] == prev[i]);
+        }
+        if markers_covered(tm, p) {
+            let i = choose|i: int| 0 <= i < tm.len() && (#[trigger] tm[i]).0.start <= p < tm[i].0.end;
+            assert(out[prev.len() + i] == tm[i]);
+        }
+    }
+}
